@@ -298,6 +298,34 @@ def gen_no_value_per_row_cases(ctx):
 REUSE = ["arrays-reassigned", "arrays-refilled", "matrix-reassigned", "matrix-refilled"]
 
 
+def gen_tall_term_cases(ctx):
+    """engines of the exact family whose output terms have heights above 1 (legal: a height scales the membership), with a
+    clipping implication and an integral defuzzifier, on batches that mix rows in which a rule fires with degree exactly 1
+    (inputs on the vertices of the input terms) with rows in which it does not: a shortcut that is right for heights <= 1
+    only, or that is decided for the whole batch at once, makes the batch differ from the rows processed one by one
+    (drawn after the families above)"""
+    rng = ctx.rng
+    for _ in range(ctx.scale(40, 400)):
+        desc = G.gen_engine(rng, exact=True, activation="general", n_in=rng.choice([1, 2, 2]), weighted=False)
+        for o in desc["outputs"]:
+            for t in o["terms"]:
+                if t["kind"] == "shape" and rng.random() < 0.7:
+                    t["height"] = rng.choice([1.5, 2.0, 2.0, 4.0])
+        for b in desc["blocks"]:
+            if rng.random() < 0.7:
+                b["implication"] = "Minimum"
+        n = rng.choice([2, 3, 4, 5, 8])
+        rows = G.gen_rows(rng, desc, n, special=False)
+        # some rows on parameters of the input terms (vertices: degree exactly 1)
+        for r in rows:
+            if rng.random() < 0.5:
+                for j, iv in enumerate(desc["inputs"]):
+                    ps = [p for t in iv["terms"] if t["kind"] == "shape" for p in t["params"] if math.isfinite(p)]
+                    if ps:
+                        r[j] = rng.choice(ps)
+        yield {"engine": desc, "rows": rows, "family": "output terms taller than 1"}
+
+
 def gen_reused_buffer_cases(ctx):
     """engines of the ordinary generator x two or three batches of equal length written, one after the other, into the same
     per-variable arrays / the same input matrix"""
